@@ -496,50 +496,65 @@ Fixpoint news (ops : list op) : list arr :=
   match ops with [] => [] | ONew v :: t => v :: news t | _ :: t => news t end.
 
 (* ------------------------------------------------------------------ PART B: curvature_reg_matrix *)
-(* one inversion with one regularization.  Cell 0 holds the caller's preloaded curvature matrix (if any).
-   F, H are the values of curvature_matrix and regularization_matrix as pure functions of the inputs. *)
-Inductive iq := QF | QFR | QPre.     (* read curvature_matrix | read curvature_reg_matrix | look at the preload *)
+(* one inversion with one regularization.  Cell 0 holds the caller's preloaded curvature matrix, cell 1 the caller's
+   preloaded block-diagonal `curvature_matrix_mapper_diag` (whichever is passed).  F, H are the values of
+   curvature_matrix and regularization_matrix as pure functions of the inputs; D is the block-diagonal matrix, U the
+   same matrix after the off-diagonal blocks have been assigned into it (w_tilde.py _curvature_matrix_multi_mapper /
+   _curvature_matrix_func_list_and_mapper; U = D for a single mapper). *)
+Inductive iq := QF | QFR | QPre | QPreDiag.   (* read curvature_matrix | curvature_reg_matrix | look at the preloads *)
+Inductive ipre := PNone | PCurv | PDiag.      (* which preload the caller passed *)
 Record ipolicy := mkIPolicy {
-  ip_preload_copied : bool;          (* imaging/w_tilde.py curvature_matrix: `copy.copy(self.preloads.curvature_matrix)` *)
-  ip_entry_deleted : bool            (* abstract.py curvature_reg_matrix: `del self.__dict__["curvature_matrix"]` *)
+  ip_preload_copied : bool;          (* imaging/{mapping,w_tilde}.py curvature_matrix: `copy.copy(self.preloads.curvature_matrix)` *)
+  ip_entry_deleted : bool;           (* abstract.py curvature_reg_matrix: `del self.__dict__["curvature_matrix"]` *)
+  ip_diag_copied : bool              (* w_tilde.py _curvature_matrix_mapper_diag: `copy.copy(self.preloads.curvature_matrix_mapper_diag)` (D20) *)
 }.
-Definition ifaithful : ipolicy := mkIPolicy true true.
+Definition ifaithful : ipolicy := mkIPolicy true true true.
 Record istate := mkIState { i_heap : heap; i_cF : option cell; i_cFR : option cell }.
-(* matrices are opaque here (the correspondence run passes IEEE bit patterns); [add] is `+` on them *)
+(* matrices are opaque here (the correspondence run passes digests of IEEE bit patterns); [add] is `+` on them *)
 Definition adder := arr -> arr -> arr.
 
 (* cached read of curvature_matrix *)
-Definition iread_F (ip : ipolicy) (preload : bool) (F : arr) (st : istate) : istate * cell :=
+Definition iread_F (ip : ipolicy) (pre : ipre) (F D U : arr) (st : istate) : istate * cell :=
   match i_cF st with
   | Some c => (st, c)
   | None =>
+      let h := i_heap st in
       let '(h1, c) :=
-        if preload then (if ip_preload_copied ip then halloc (i_heap st) (hget (i_heap st) 0%nat) else (i_heap st, 0%nat))
-        else halloc (i_heap st) F in
+        match pre with
+        | PCurv => if ip_preload_copied ip then halloc h (hget h 0%nat) else (h, 0%nat)
+        | PDiag =>
+            (* curvature_matrix = self._curvature_matrix_mapper_diag ; curvature_matrix[i-block, j-block] = off_diag   -- IN PLACE
+               curvature_matrix = curvature_matrix_mirrored_from(curvature_matrix)                                     -- a new array *)
+            let '(h1, cd) := if ip_diag_copied ip then halloc h (hget h 1%nat) else (h, 1%nat) in
+            halloc (hset h1 cd U) F
+        | PNone => halloc h F
+        end in
       (mkIState h1 (Some c) (i_cFR st), c)
   end.
-Definition istep (add : adder) (ip : ipolicy) (preload : bool) (F H : arr) (st : istate) (q : iq) : istate * arr :=
+Definition istep (add : adder) (ip : ipolicy) (pre : ipre) (F H D U : arr) (st : istate) (q : iq) : istate * arr :=
   match q with
-  | QF => let '(st1, c) := iread_F ip preload F st in (st1, hget (i_heap st1) c)
+  | QF => let '(st1, c) := iread_F ip pre F D U st in (st1, hget (i_heap st1) c)
   | QFR =>
       match i_cFR st with
       | Some c => (st, hget (i_heap st) c)
       | None =>
           (* curvature_matrix = self.curvature_matrix ; curvature_matrix += self.regularization_matrix ;
              del self.__dict__["curvature_matrix"] ; return curvature_matrix *)
-          let '(st1, c) := iread_F ip preload F st in
+          let '(st1, c) := iread_F ip pre F D U st in
           let h2 := hset (i_heap st1) c (add (hget (i_heap st1) c) H) in
           (mkIState h2 (if ip_entry_deleted ip then None else i_cF st1) (Some c), hget h2 c)
       end
   | QPre => (st, hget (i_heap st) 0%nat)
+  | QPreDiag => (st, hget (i_heap st) 1%nat)
   end.
-Fixpoint irun (add : adder) (ip : ipolicy) (preload : bool) (F H : arr) (st : istate) (qs : list iq) : list arr :=
+Fixpoint irun (add : adder) (ip : ipolicy) (pre : ipre) (F H D U : arr) (st : istate) (qs : list iq) : list arr :=
   match qs with
   | [] => []
-  | q :: t => let '(st1, v) := istep add ip preload F H st q in v :: irun add ip preload F H st1 t
+  | q :: t => let '(st1, v) := istep add ip pre F H D U st q in v :: irun add ip pre F H D U st1 t
   end.
-Definition ist0 (F : arr) : istate := mkIState [F] None None.   (* cell 0: the caller's preload (= F), used iff preload *)
-Definition ispec (add : adder) (F H : arr) (q : iq) : arr := match q with QF => F | QFR => add F H | QPre => F end.
+Definition ist0 (F D : arr) : istate := mkIState [F; D] None None.   (* the caller's preloads (used according to [pre]) *)
+Definition ispec (add : adder) (F H D : arr) (q : iq) : arr :=
+  match q with QF => F | QFR => add F H | QPre => F | QPreDiag => D end.
 
 (* ------------------------------------------------------------------ PART C: seeded noise *)
 Section Rng.
@@ -650,8 +665,9 @@ Inductive case :=
      and the final contents of everything *)
 | KHist (t : qtable) (ops : list op) (out : list (obs * list change)) (fin : snap)
   (* reads of curvature_matrix / curvature_reg_matrix / the preload on a real inversion
-  (F, H, FR: curvature_matrix, regularization_matrix, curvature_reg_matrix of a never-read twin, as bit patterns) *)
-| KInv (preload : bool) (F H FR : arr) (qs : list iq) (out : list arr)
+  (F, H, FR, D, U: curvature_matrix, regularization_matrix, curvature_reg_matrix, _curvature_matrix_mapper_diag and
+  _curvature_matrix_multi_mapper of never-read twins, as digests of their bit patterns) *)
+| KInv (pre : ipre) (F H FR D U : arr) (qs : list iq) (out : list arr)
   (* SimulatorImaging(noise_seed=seed).via_image_from repeated under different global RNG states: the noisy images *)
 | KSeed (seed : Z) (outs : list arr).
 
@@ -682,7 +698,7 @@ Definition agree (k : case) : bool :=
                            && list_eqb change_eqb (snd (fst m)) (snd i)
                            && forallb (fun ch => name_mem (fst ch) (snd m)) (snd i)) tr out
       && snap_eqb (snapshot st) fin
-  | KInv preload F H FR qs out => list_eqb arr_eqb (irun (add_tbl F H FR) ifaithful preload F H (ist0 F) qs) out
+  | KInv pre F H FR D U qs out => list_eqb arr_eqb (irun (add_tbl F H FR) ifaithful pre F H D U (ist0 F D) qs) out
   | KSeed seed outs => (seed =? -1) || all_equal outs
   end.
 (* the value semantics accepts what the implementation did: its observations, NO existing name ever changes, the
@@ -699,7 +715,7 @@ Definition spec_ok (k : case) : bool :=
       let '(l, sp) := srun (qlookup t) sst0 ops in
       all2 (fun s i => obs_eqb s (fst i) && is_nil (snd i)) l out
       && spec_snap_ok (qlookup t) sp fin
-  | KInv preload F H FR qs out => list_eqb arr_eqb (map (ispec (add_tbl F H FR) F H) qs) out
+  | KInv pre F H FR D U qs out => list_eqb arr_eqb (map (ispec (add_tbl F H FR) F H D) qs) out
   | KSeed seed outs => (seed =? -1) || all_equal outs
   end.
 Definition check (k : case) : nat := verdict (agree k) (spec_ok k).
